@@ -2,13 +2,13 @@
 
 Unit: Interpreter.attach/bind_property_statechart/_raise_event/execute_once, PropertyStatechartListener,
 SynchronizedClock, through the public API.  The monitored chart is generated (probes on entry/exit/action,
-an action that sends an event, one that notifies); three monitors are attached in this order: a recording
+an action that sends a delayed event, notifies, sends, notifies (None-valued parameter) in that order); three monitors are attached in this order: a recording
 callable, a recording property statechart (never final) and a failing property statechart whose move
 to its final state is guarded by a fresh symbolic Boolean per delivered meta-event -- the engine splits on
 "the property fails at the k-th meta-event" for every k.  An unmonitored twin with the same guard bits and
 clock advances provides the reference run.  Obligations: the delivered stream equals the stream derived
-from the twin's macro steps (exactly once, in order, documented attributes, each delivered right after the
-code it reports), the property clock equals the monitored step time at every delivery, a failure at
+from the twin's macro steps (exactly once, in order -- sends and notifications in the order of the calls in the code --, documented
+attributes read the documented way as `event.<name>`, each delivered right after the code it reports), the property clock equals the monitored step time at every delivery, a failure at
 delivery k raises PropertyStatechartError out of that call with no monitored code and no delivery after
 it, and a run in which no property fails equals the unmonitored run.
 """
